@@ -591,6 +591,43 @@ MISSING_RES = [re.compile(r"cannot find function `(\w+)`"), re.compile(r"cannot 
                re.compile(r"no method named `(\w+)` found for (?:struct|enum|union|reference|mutable reference) `[&a-z ]*(\w+)")]
 
 
+def _expand_use(tree, prefix=''):
+    """flatten a use-tree (`a::{b, c::{d, e as f}}`) into (full path, bound name) pairs"""
+    tree = tree.strip()
+    out = []
+    m = re.match(r'^((?:[\w]+::)*)\{(.*)\}$', tree, re.S)
+    if m:
+        depth, cur, parts = 0, '', []
+        for ch in m.group(2):
+            if ch == '{':
+                depth += 1
+            elif ch == '}':
+                depth -= 1
+            if ch == ',' and depth == 0:
+                parts.append(cur); cur = ''
+            else:
+                cur += ch
+        if cur.strip():
+            parts.append(cur)
+        for q in parts:
+            out += _expand_use(q, prefix + m.group(1))
+        return out
+    m = re.match(r'^([\w:]+?)(?:\s+as\s+(\w+))?$', tree)
+    if m:
+        full = prefix + m.group(1)
+        out.append((full, m.group(2) or full.rsplit('::', 1)[-1]))
+    return out
+
+
+def std_import_of(src_text, name):
+    """`use std::…::name;` (or core/alloc) of a source file, as a one-line import, or None"""
+    for m in re.finditer(r'^\s*(?:pub(?:\([^)]*\))?\s+)?use\s+([^;]+);', src_text, re.M):
+        for (full, bound) in _expand_use(re.sub(r'\s+', ' ', m.group(1))):
+            if bound == name and full.split('::')[0] in ('std', 'core', 'alloc'):
+                return 'use %s%s;' % (full, '' if full.endswith('::' + name) or full == name else ' as ' + name)
+    return None
+
+
 def find_missing_callees(unit, ctx, text, workdir, repo):
     """compile the rendered unit quickly (no verification) and map unresolved function names to items of the source files
     the unit draws from"""
@@ -647,6 +684,16 @@ def find_missing_callees(unit, ctx, text, workdir, repo):
             if hit and hit not in found:
                 found.append(hit)
                 break
+        else:
+            if ty is None:
+                for rel in files:
+                    try:
+                        imp = std_import_of(open(os.path.join(repo, rel)).read(), name)
+                    except FileNotFoundError:
+                        continue
+                    if imp and (rel, None, imp, 'use') not in found and ('\n' + imp) not in text:
+                        found.append((rel, None, imp, 'use'))
+                        break
     return found
 
 
